@@ -32,7 +32,7 @@ ANNOUNCE = {
     'h1:1': [(H1, 1)],
     'h1:2+h2:1': [(H1, 2), (H2, 1)],
     'v6': [('v6', 9)],
-    'h1:1+v6': [(H1, 1), ('v6', 9)],
+    'h1:1+mcast': [(H1, 1), ('224.0.0.1', 2)],      # (a multicast address: the kernel refuses the dial synchronously)
 }
 _W = {}
 
